@@ -246,7 +246,78 @@ theorem checkedSub_spec (u : Int) (secs : Nat) :
   · rw [((fromUnix_iff_range (u - secs)).1).2 h, if_pos h]
   · rw [(fromUnix_iff_range (u - secs)).2 h, if_neg h]
 
+/-! ## durations: every constructor is total, and adding one is integer arithmetic on seconds -/
+
+/-- the duration constructors, as regenerated from the source, are the five units over 32-bit arguments -/
+theorem durationCtors_table :
+    (∀ r ∈ Gen.C13.durationCtors, (r.1, r.2.1) ∈ [("seconds", 1), ("minutes", 60), ("hours", 3600), ("days", 86400), ("weeks", 604800)]) ∧
+    (∀ p ∈ [("seconds", 1), ("minutes", 60), ("hours", 3600), ("days", 86400), ("weeks", 604800)],
+      p ∈ Gen.C13.durationCtors.map (fun r => (r.1, r.2.1))) ∧
+    ∀ r ∈ Gen.C13.durationCtors, r.2.2 = 32 := by
+  refine ⟨?_, ?_, ?_⟩ <;> decide
+
+/-- **no duration constructor panics**: for every argument of its type the product with the unit fits 64 bits, and the
+duration is `n` units in seconds -/
+theorem duration_total (name : String) (n : Nat) (r : Outcome TErr Nat) (h : durationSecs name n = some r) :
+    ∃ k, (name, k, 32) ∈ Gen.C13.durationCtors ∧ n < 2 ^ 32 ∧ r = .ok (n * k) := by
+  unfold durationSecs at h
+  cases hf : Gen.C13.durationCtors.find? (·.1 == name) with
+  | none => simp [hf] at h
+  | some e =>
+    obtain ⟨nm, k, bits⟩ := e
+    simp only [hf] at h
+    have hmem := List.mem_of_find?_eq_some hf
+    have hname : nm = name := by
+      have := List.find?_some hf
+      simpa using this
+    -- every row has 32 bits and a unit of at most 604800 seconds
+    have hrow : bits = 32 ∧ k ≤ 604800 := by
+      have : ∀ e ∈ Gen.C13.durationCtors, e.2.2 = 32 ∧ e.2.1 ≤ 604800 := by decide
+      exact this _ hmem
+    obtain ⟨hb, hk⟩ := hrow
+    subst hb
+    by_cases hn : n < 2 ^ 32
+    · simp only [hn, ↓reduceIte, Option.some.injEq] at h
+      have hfit : n * k < 2 ^ 63 := by
+        have : n * k ≤ 2 ^ 32 * 604800 := Nat.mul_le_mul (Nat.le_of_lt hn) hk
+        omega
+      simp only [hfit, ↓reduceIte] at h
+      exact ⟨k, hname ▸ hmem, hn, h.symm⟩
+    · simp [hn] at h
+
+/-- adding / subtracting a duration built by any constructor equals integer arithmetic on seconds, `none` exactly when the
+result leaves the range; it never panics -/
+theorem checkedAddDur_spec (u : Int) (name : String) (n : Nat) (r : Outcome TErr (Option Int))
+    (h : checkedAddDur u name n = some r) :
+    ∃ k, (name, k, 32) ∈ Gen.C13.durationCtors ∧
+      r = .ok (if MIN ≤ u + (n * k : Nat) ∧ u + (n * k : Nat) ≤ MAX then some (u + (n * k : Nat)) else none) := by
+  unfold checkedAddDur at h
+  cases hd : durationSecs name n with
+  | none => simp [hd] at h
+  | some d =>
+    obtain ⟨k, hk, _, hr⟩ := duration_total name n d hd
+    subst hr
+    simp only [hd, Option.map_some, Option.some.injEq] at h
+    exact ⟨k, hk, by rw [← h, checkedAdd_spec]⟩
+
+theorem checkedSubDur_spec (u : Int) (name : String) (n : Nat) (r : Outcome TErr (Option Int))
+    (h : checkedSubDur u name n = some r) :
+    ∃ k, (name, k, 32) ∈ Gen.C13.durationCtors ∧
+      r = .ok (if MIN ≤ u - (n * k : Nat) ∧ u - (n * k : Nat) ≤ MAX then some (u - (n * k : Nat)) else none) := by
+  unfold checkedSubDur at h
+  cases hd : durationSecs name n with
+  | none => simp [hd] at h
+  | some d =>
+    obtain ⟨k, hk, _, hr⟩ := duration_total name n d hd
+    subst hr
+    simp only [hd, Option.map_some, Option.some.injEq] at h
+    exact ⟨k, hk, by rw [← h, checkedSub_spec]⟩
+
 /-! ## non-vacuity -/
+
+example : durationSecs "weeks" 4294967295 = some (.ok 2597596220016000) ∧
+    checkedAddDur MIN "days" 3652424 = some (.ok (some 253402214400)) ∧
+    checkedAddDur MIN "days" 3652425 = some (.ok none) := by decide +kernel
 
 example : parse [50, 48, 50, 48, 45, 48, 49, 45, 48, 49, 84, 48, 48, 58, 48, 48, 58, 48, 48, 46, 53, 43, 48, 49, 58, 48, 48]
     = Outcome.ok 1577833200 := by decide +kernel
